@@ -36,6 +36,9 @@ type Obligation struct {
 }
 
 type Query struct {
+	peakBase string
+	peakFam, peakAddr string // cost mode: array family and address of the root receiver's cursor field
+	costAssumed map[string]bool
 	eng       *Engine
 	decls     []string
 	declared  map[string]bool
@@ -53,6 +56,7 @@ type Query struct {
 }
 
 type VCOpts struct {
+	Cost        bool // count steps in the ghost counter $ticks (C20)
 	Safety      bool // emit idx/slice/nil/assert/div obligations
 	Overflow    bool
 	InlineDepth int
@@ -67,6 +71,8 @@ type VCOpts struct {
 	OnMakeInterface func(fr *Frame, x *ssa.MakeInterface, iv Val)
 	CheckTags map[string]bool // clause groups whose obligations this run generates (nil: the untagged, structural group only)
 	RG          bool // rely/guarantee obligations at atomic updates of cells with an rg spec
+	OnMapLookup func(fr *Frame, x *ssa.Lookup, v Val)   // after a map read: object invariants of stored values may be assumed
+	OnMapUpdate func(fr *Frame, x *ssa.MapUpdate)        // before a map write: object invariants of the stored value are obligations
 	StrConstFact func(q *Query, sym string) string // extra fact asserted about every string literal when it is first used
 	InlineAcrossPkgs bool
 	ProtectParams bool
@@ -75,7 +81,7 @@ type VCOpts struct {
 }
 
 func newQuery(e *Engine, opts *VCOpts) *Query {
-	return &Query{eng: e, declared: map[string]bool{}, strConsts: map[string]string{}, notes: map[string]bool{}, nameCount: map[string]int{}, opts: opts, uninterp: map[string]bool{}}
+	return &Query{eng: e, costAssumed: map[string]bool{}, declared: map[string]bool{}, strConsts: map[string]string{}, notes: map[string]bool{}, nameCount: map[string]int{}, opts: opts, uninterp: map[string]bool{}}
 }
 
 func (q *Query) declare(name, sort string) {
@@ -195,9 +201,12 @@ func (q *Query) havocAll(s *State) {
 	q.epochCtr++
 	oldTop := q.get(s, "$top")
 	ghost := map[string]string{}
+	ghostOld := map[string]string{}
 	for k, v := range s.v {
 		if strings.HasPrefix(k, "$") && k != "$top" && !ghostHavocable[k] {
 			ghost[k] = v
+		} else if ghostHavocable[k] {
+			ghostOld[k] = v
 		}
 	}
 	s.v = map[string]string{}
@@ -207,9 +216,16 @@ func (q *Query) havocAll(s *State) {
 	}
 	nt := q.get(s, "$top")
 	q.assume("true", fmt.Sprintf("(>= %s %s)", nt, oldTop))
+	if q.opts != nil && q.opts.Cost {
+		if ot, ok := oldTicks(ghostOld); ok {
+			q.assume("true", fmt.Sprintf("(>= %s %s)", q.get(s, "$ticks"), ot))
+		}
+	}
 }
 
-var ghostHavocable = map[string]bool{}
+func oldTicks(m map[string]string) (string, bool) { t, ok := m["$ticks"]; return t, ok }
+
+var ghostHavocable = map[string]bool{"$ticks": true}
 
 // merge states flowing in on edges (cond_i, state_i)
 func (q *Query) merge(hint string, conds []string, sts []*State) *State {
@@ -276,6 +292,8 @@ type deferRec struct {
 }
 
 type Frame struct {
+	callMode string // how the last call was modelled (cost accounting)
+	closureOverride *ssa.MakeClosure
 	q       *Query
 	fn      *ssa.Function
 	prefix  string
@@ -306,6 +324,7 @@ type Frame struct {
 	lastAtomicLoad map[string]string
 	localKey map[*ssa.Alloc]string
 	freeLocal map[*ssa.FreeVar]localRef
+	lastCallArgs []ssa.Value
 }
 
 type protectedObj struct {
@@ -717,6 +736,17 @@ func (fr *Frame) collectNames() {
 func (fr *Frame) run(args []Val, freeVars []Val, st *State, reach string) {
 	fn := fr.fn
 	q := fr.q
+	if q.opts != nil && q.opts.Cost {
+		q.get(st, "$ticks")
+		if fr.parent == nil && len(args) > 0 {
+			if fam, off, ok := q.eng.cursorOf(fn); ok {
+				q.peakFam, q.peakBase = fam, args[0].C[0]
+				q.peakAddr = sAdd(args[0].C[0], sInt(int64(off)))
+				st.v["$hw"] = fmt.Sprintf("(select %s %s)", q.get(st, fam), q.peakAddr)
+				q.get(st, "$look")
+			}
+		}
+	}
 	fr.entry = st.clone()
 	fr.entryReach = reach
 	for i, p := range fn.Params {
@@ -815,7 +845,21 @@ func (fr *Frame) execBlock(b *ssa.BasicBlock, st0 *State, reach0 string) {
 		}
 		v := fr.namedVal(fr.sym(phi), phi.Type())
 		fr.vals[phi] = v
-		if li == nil {
+		// a header phi whose operands on the back edges are the phi itself does not change in the loop: it merely
+		// merges the values flowing in on the entry edges (predFlows(.., false) lists exactly those)
+		loopConst := li != nil
+		if li != nil {
+			inIdx := map[int]bool{}
+			for _, pi := range idx {
+				inIdx[pi] = true
+			}
+			for pi, e := range phi.Edges {
+				if !inIdx[pi] && e != ssa.Value(phi) {
+					loopConst = false
+				}
+			}
+		}
+		if li == nil || loopConst {
 			for k, pi := range idx {
 				ev := fr.val(phi.Edges[pi])
 				for c := range v.C {
@@ -838,6 +882,10 @@ func (fr *Frame) execBlock(b *ssa.BasicBlock, st0 *State, reach0 string) {
 			fr.typeInv(v, phi.Type(), reach, st)
 		}
 		fr.assumeLoopInvariant(li, reach, st)
+		if q.opts != nil && q.opts.Cost {
+			// one step per passage of a loop header
+			st.v["$ticks"] = "(+ " + q.get(st, "$ticks") + " 1)"
+		}
 	}
 	fr.cur = flow{reach: reach, st: st}
 	fr.curBlock = b
